@@ -106,7 +106,7 @@ class BasicBlock:
         # Rows of an (n, 1) vector arrive as size-1 arrays; numpy no longer
         # converts those to scalars implicitly, so pass scalars explicitly
         args = tuple(
-            arg.item() if isinstance(arg, np.ndarray) and arg.size == 1 else arg
+            float(arg.item()) if isinstance(arg, np.ndarray) and arg.size == 1 else arg
             for arg in args
         )
         temporary_values = {}
